@@ -162,7 +162,7 @@ struct Kernel {
     size_t ux_max_msgs = 16;
     Time base_latency = 50 * US, jitter = 0;
     int seg_policy = 0;            // 0 whole, 1 halves, 2 random chunks, 3 byte-wise head (header split), 4 all byte-wise
-    double p_short_write = 0, p_short_read = 0, p_eagain_send = 0, p_eagain_recv = 0, p_delay = 0;
+    double p_short_write = 0, p_short_read = 0, p_eagain_send = 0, p_eagain_recv = 0, p_delay = 0, p_eintr = 0;
     bool linux_writeable_rule = true;
     Time mtime_gran = 1;           // ns granularity of file mtimes
     // state
